@@ -332,7 +332,7 @@ func c08Build(t c08T, v c08V) reflect.Value {
 			out.SetBytes(append([]byte{}, v.B...))
 		}
 	case "date", "ts", "time":
-		out.Set(reflect.ValueOf(time.Unix(v.S, v.N)))
+		out.Set(reflect.ValueOf(time.Unix(v.S, v.N)).Convert(rt)) // rt may be a named time type
 	case "dur":
 		out.SetInt(c08BigOf(v.I).Int64())
 	case "ptr":
@@ -430,7 +430,7 @@ func c08Extract(t c08T, rv reflect.Value) string {
 	case "bin":
 		return App("C08.GBytes", "false", B(string(rv.Bytes())))
 	case "date", "ts", "time":
-		tm := rv.Interface().(time.Time)
+		tm := rv.Convert(reflect.TypeOf(time.Time{})).Interface().(time.Time)
 		return App("C08.GTime", Z(tm.Unix()), Z(int64(tm.Nanosecond())))
 	case "dur":
 		return App("C08.GDur", Z(rv.Int()))
@@ -838,9 +838,6 @@ func c08Tags(t c08T, v c08V, wire bool, tags map[string]bool) {
 	tags["ty-"+t.K] = true
 	if t.M != "" {
 		tags["named-"+t.M] = true
-		if c08NamedRefused(t) {
-			tags["finding-named-kind-refused"] = true
-		}
 	}
 	switch t.K {
 	case "ptr":
@@ -1599,7 +1596,7 @@ func c08Gen(r *rand.Rand, n int, tier string) []c08In {
 		one("g2w", t, c08V{L: []c08V{}, B: []byte{}}, "nil-vs-empty")
 		one("g2w", c08Ptr(t), c08V{L: []c08V{}, B: []byte{}}, "nil-vs-empty")
 	}
-	// maps: every key type, nested items, nullable items (the finding)
+	// maps: every key type, nested items, nullable items
 	for _, kt := range c08KeyTypes() {
 		mt := c08MapT(kt, c08ListT(c08I64))
 		one("g2w", mt, c08RandVal(r, mt, false), "map")
